@@ -78,12 +78,16 @@ type hcfg struct {
 	host       string // Host header
 	req        otuple // request origin, by construction
 	prefix     string // token prefix (fixed per case)
-	reuseCtx   bool   // one fasthttp.RequestCtx for the whole history, as on a keep-alive connection
+	// tokStyle: where the counter sits in the issued tokens, so that two live tokens of one rig are
+	// near misses of each other: 0 "prefix-N"; 1..4 a fixed-width base-36 counter first / in the
+	// middle / last but one / last (same length, all other bytes equal).
+	tokStyle int
+	reuseCtx bool // one fasthttp.RequestCtx for the whole history, as on a keep-alive connection
 }
 
 func (h *hcfg) String() string {
-	return fmt.Sprintf("backend=%s extractor=%s keylookup=%v decoy-keylookup=%q singleuse=%v idle=%s cookie=%s mode=%s host=%s trusted=%q reusectx=%v",
-		h.backend, h.extractor, h.keyLookup, h.decoy, h.singleUse, h.idle, h.cookieName, smNames[h.mode], h.host, h.trustedCfg, h.reuseCtx)
+	return fmt.Sprintf("backend=%s extractor=%s keylookup=%v decoy-keylookup=%q singleuse=%v idle=%s cookie=%s mode=%s host=%s trusted=%q reusectx=%v tokstyle=%d",
+		h.backend, h.extractor, h.keyLookup, h.decoy, h.singleUse, h.idle, h.cookieName, smNames[h.mode], h.host, h.trustedCfg, h.reuseCtx, h.tokStyle)
 }
 
 type entry struct {
@@ -107,7 +111,55 @@ type world struct {
 	entries []entry  // protected-handler entries during the current request
 }
 
-func (w *world) tokName(n int) string { return w.cfg.prefix + "-" + strconv.Itoa(n) }
+const b36 = "0123456789abcdefghijklmnopqrstuvwxyz"
+
+func (w *world) tokName(n int) string {
+	p := w.cfg.prefix
+	f := string([]byte{b36[(n/36)%36], b36[n%36]})
+	switch w.cfg.tokStyle {
+	case 1:
+		return f + p
+	case 2:
+		return p[:len(p)/2] + f + p[len(p)/2:]
+	case 3:
+		return p + f + "x"
+	case 4:
+		return p + f
+	}
+	return p + "-" + strconv.Itoa(n)
+}
+
+// mutate changes exactly one byte of a token: which selects first / middle / last but one / last /
+// some other position. The result keeps the length and the token alphabet.
+func mutate(tok string, which int) string {
+	if tok == "" {
+		return ""
+	}
+	n := len(tok)
+	pos := 0
+	switch which {
+	case 0:
+		pos = 0
+	case 1:
+		pos = n / 2
+	case 2:
+		pos = n - 2
+	case 3:
+		pos = n - 1
+	default:
+		pos = (which*7 + 3) % n
+	}
+	if pos < 0 {
+		pos = 0
+	}
+	b := []byte(tok)
+	if b[pos] != 'q' {
+		b[pos] = 'q'
+	} else {
+		b[pos] = 'r'
+	}
+	return string(b)
+}
 
 func newWorld(cfg *hcfg, faults []vstore.Fault) *world {
 	w := &world{cfg: cfg}
@@ -485,9 +537,10 @@ const (
 	selStale
 	selEmpty
 	selPrev
+	selMut // the client's own token with one byte changed (position from step.idx)
 )
 
-var selNames = []string{"own", "other", "forged", "future", "stale", "empty", "prev"}
+var selNames = []string{"own", "other", "forged", "future", "stale", "empty", "prev", "mutated"}
 
 // origin flavours inside histories
 const (
@@ -535,6 +588,7 @@ func genCfg(r *gen.Rand, backends []string) *hcfg {
 		host:       gen.Pick(r, []string{"example.com", "app.example.com", "example.com:8080", "shop.test"}),
 		prefix:     "t" + r.StringFrom(gen.Lower+gen.Digits, 6),
 		reuseCtx:   r.Bool(),
+		tokStyle:   r.Intn(5),
 	}
 	if r.Chance(1, 40) {
 		cfg.idle = 30 * time.Minute
@@ -547,6 +601,13 @@ func genCfg(r *gen.Rand, backends []string) *hcfg {
 	}
 	cfg.req = hostTuple(schemeOf(cfg.mode), cfg.host)
 	return cfg
+}
+
+// hostSpellsDefaultPort: the Host header writes out the scheme's default port ("example.com:443" on
+// https). The request origin is unchanged by that (RFC 6454), but a same-origin request is then
+// only counted, not demanded to pass: rejecting it is over-strict, not a breach of the statement.
+func hostSpellsDefaultPort(cfg *hcfg) bool {
+	return strings.HasSuffix(cfg.host, ":"+strconv.Itoa(defPort(cfg.req.scheme)))
 }
 
 // decoysFor lists KeyLookup strings that name a source other than the explicit extractor's.
@@ -603,7 +664,7 @@ func genHistory(r *gen.Rand, backends []string, maxSteps int, noTime bool) *hist
 			}
 		case 1:
 			s.kind, s.method = kPost, gen.Pick(r, unsafeMethods)
-			switch r.PickW(34, 6, 6, 5, 5, 4, 4, 3, 10, 4, 4, 3, 10) {
+			switch r.PickW(34, 6, 8, 7, 5, 4, 4, 3, 10, 4, 4, 3, 10, 5, 4) {
 			case 0:
 				s.ext, s.ck, s.label = selOwn, selOwn, "own"
 			case 1:
@@ -632,6 +693,10 @@ func genHistory(r *gen.Rand, backends []string, maxSteps int, noTime bool) *hist
 				s.ext, s.ck, s.label = selOwn, selEmpty, "no-cookie"
 			case 11:
 				s.ext, s.ck, s.sidSel, s.label = selOwn, selOwn, selEmpty, "own-without-session"
+			case 13:
+				s.ext, s.ck, s.label = selOwn, selMut, "one-byte-off-cookie"
+			case 14:
+				s.ext, s.ck, s.label = selMut, selOwn, "one-byte-off-extractor"
 			default:
 				s.ext, s.ck, s.label = selPrev, selPrev, "replay-previous"
 			}
@@ -751,6 +816,8 @@ func (rn *runner) pick(sel int, s *step, cl *client) string {
 			}
 		}
 		return cl.hist[s.idx%len(cl.hist)]
+	case selMut:
+		return mutate(cl.tok, s.idx)
 	case selPrev:
 		return "" // resolved by caller
 	}
@@ -1031,7 +1098,7 @@ func (rn *runner) step(s *step) {
 	cl.prevE, cl.prevC = q.ext, q.ck
 	present := q.ext != "" && !(cfg.extractor == "param" && q.ext == "none")
 	match := cfg.extractor == "cookie" || q.ext == q.ck
-	ov, oclass, gov, ohdr := judgeOrigin(cfg.req.scheme, cfg.req, cfg.trusted, q.origin, q.referer)
+	ov, oclass, gov, ohdr := judgeOrigin(cfg.req.scheme, cfg.req, cfg.trusted, q.origin, q.referer, hostSpellsDefaultPort(cfg))
 	sigClass := oclass
 
 	if m.tokens[q.ext] != nil || q.origin != nil || q.referer != nil {
